@@ -11,7 +11,7 @@ import (
 func init() { register("C11", propC11) }
 
 func propC11(c *Ctx) {
-	c.Explanation = "Decides structural necessary conditions of UDP datagram integrity for all inputs and schedules: (U1) every access to the receive-queue fields holds rcvMu (must-lockset); (U2) a datagram is enqueued only after the length check and the ready/closed/buffer-full test, all inside one critical section (drop-whole); (U3) the queued packet is a fresh object whose data is a Clone of the view after exactly one TrimFront(UDP header size) and no CapLength, and whose sender address is (NIC of the route, remote address of the id, source port of the header); (U4) rcvList.PushBack only in HandlePacket, Read removes the front element inside the critical section and returns that element's data and sender (FIFO, at most once), the byte accounting adds/subtracts the same packet's size; (U5) Write sends exactly one datagram per successful return with payload = Payload.Get(Payload.Size()) of the caller, local port of the endpoint and the destination port of the connect/To address, returns len(payload), and sends only after route resolution; (U6) the 16-bit UDP length cannot wrap: Write rejects payloads whose size plus the 8-byte header exceeds 65535 (interval analysis of sendUDP's narrowing conversion under that guard). (U7) the read side is closed (rcvClosed, after which HandlePacket drops whole datagrams) exactly when Shutdown is called with ShutdownRead or the endpoint is closed - no earlier shutdown state can suppress it - and nowhere else. (U8) the IPv4 reassembly key covers id, protocol and every byte of both addresses (shared with C08/F4): datagrams of different senders are never merged by reassembly. (U9) link typestate of the packet list. (U10) no examined callee error ends in a nil return in the UDP, route, IPv4/IPv6 and link packages; U5 also tables Route.WritePacket's pass-through of the network endpoint's result. (U11) the receive queue is a correct doubly-linked list. (U12) the IPv4 inbound path hands up exactly the payload (shared with C08/F4). U5 also tables prepareForWrite. (U13) the complete site table of the IPv4 emitter incl. its size guard (shared with C06/E1); (U14) UDP and IPv4 length fields at the RFC 768/791 bits (shared with C15/B1). (U15) a connected socket receives and sends to the connected port over its own route reference, the first datagram of an empty queue wakes readers, Close empties the queue; (U16) sendUDP returns the result of the one packet write it performs. (U17) the IP layer cuts a datagram at exactly its IP length however many chunks it arrives in (shared with C16/V2). (U18) the only narrowing in package udp is the length field of a datagram whose size Write has bounded. NOT decided: byte equality of delivered and sent data over histories; behaviour when the UDP length field is smaller than the IP payload (trailing bytes are delivered)."
+	c.Explanation = "Decides structural necessary conditions of UDP datagram integrity for all inputs and schedules: (U1) every access to the receive-queue fields holds rcvMu (must-lockset); (U2) a datagram is enqueued only after the length check and the ready/closed/buffer-full test, all inside one critical section (drop-whole); (U3) the queued packet is a fresh object whose data is a Clone of the view after exactly one TrimFront(UDP header size) and no CapLength, and whose sender address is (NIC of the route, remote address of the id, source port of the header); (U4) rcvList.PushBack only in HandlePacket, Read removes the front element inside the critical section and returns that element's data and sender (FIFO, at most once), the byte accounting adds/subtracts the same packet's size; (U5) Write sends exactly one datagram per successful return with payload = Payload.Get(Payload.Size()) of the caller, local port of the endpoint and the destination port of the connect/To address, returns len(payload), and sends only after route resolution; (U6) the 16-bit UDP length cannot wrap: Write rejects payloads whose size plus the 8-byte header exceeds 65535 (interval analysis of sendUDP's narrowing conversion under that guard). (U7) the read side is closed (rcvClosed, after which HandlePacket drops whole datagrams) exactly when Shutdown is called with ShutdownRead or the endpoint is closed - no earlier shutdown state can suppress it - and nowhere else. (U8) the IPv4 reassembly key covers id, protocol and every byte of both addresses (shared with C08/F4): datagrams of different senders are never merged by reassembly. (U9) link typestate of the packet list. (U10) no examined callee error ends in a nil return in the UDP, route, IPv4/IPv6 and link packages; U5 also tables Route.WritePacket's pass-through of the network endpoint's result. (U11) the receive queue is a correct doubly-linked list. (U12) the IPv4 inbound path hands up exactly the payload (shared with C08/F4). U5 also tables prepareForWrite. (U13) the complete site table of the IPv4 emitter incl. its size guard (shared with C06/E1); (U14) UDP and IPv4 length fields at the RFC 768/791 bits (shared with C15/B1). (U15) a connected socket receives and sends to the connected port over its own route reference, the first datagram of an empty queue wakes readers, Close empties the queue; (U16) sendUDP returns the result of the one packet write it performs. (U17) the IP layer cuts a datagram at exactly its IP length however many chunks it arrives in (shared with C16/V2). (U18) the only narrowing in package udp is the length field of a datagram whose size Write has bounded. (U19) re-connecting removes the old registration under the NIC, protocol list and id recorded when it was made, before any of them is overwritten (shared with C09/D6): a connected socket does not stay registered under its bound identity for any network protocol. (U20) the IPv6 layer hands up exactly the payload: 40 header bytes trimmed, then cut at the payload length for every valid packet, before ICMPv6 or the transport see it. NOT decided: byte equality of delivered and sent data over histories; behaviour when the UDP length field is smaller than the IP payload (trailing bytes are delivered)."
 	c.Assumptions = []string{"tcpip.Payload.Get(n) returns at most n bytes", "header accessors are pure between the guard and the use in HandlePacket"}
 	ipv4WritePacketRule(c, c.Rule("U13", "K7 exact-guard site table (shared with C06/E1)", "the IPv4 emitter refuses exactly the datagrams whose header plus payload do not fit 16 bits, writes one packet and returns the link result", 14))
 	u14 := c.Rule("U14", "K9 bitprov (shared with C15/B1)", "UDP ports, length and checksum and the IPv4 length fields are read and written at exactly the RFC 768/791 bits", 10)
@@ -22,6 +22,8 @@ func propC11(c *Ctx) {
 	sendResultRule(c, c.Rule("U16", "K7 closed return table (shared with C06/E10)", "sendUDP returns the result of the one packet write it performs", 1), "udp.sendUDP")
 	vvCapLengthRule(c, c.Rule("U17", "K7 exact-guard site table (shared with C16/V2)", "the IP layer cuts a datagram at exactly its IP length, however many chunks it arrives in", 4))
 	c.NoNewNarrowing(c.Rule("U18", "K8 narrowing (closed world, reviewed table)", "the only narrowing in package udp is the length field of a datagram whose size Write has bounded", 3), []string{"/transport/udp"}, narrowUDP)
+	udpReconnectRule(c, c.Rule("U19", "K5 site table + K2 order (shared with C09/D6)", "re-connecting removes the old registration under the scope and id recorded for it, before they are overwritten: a connected socket is not left registered under its bound (wildcard-peer) identity for any network protocol", 4))
+	ipv6InboundRule(c, c.Rule("U20", "K7 exact-guard site table", "the IPv6 layer hands up exactly the payload: 40 header bytes trimmed, then cut at the payload length unconditionally, however many chunks the frame arrived in", 4))
 	u1 := c.Rule("U1", "K4 lockset", "receive queue fields only under rcvMu", 20)
 	c.Locks().CheckGuards(c, u1, guardsUDP, nil)
 
@@ -331,3 +333,22 @@ func propC11(c *Ctx) {
 }
 
 var absintHookC11 func(*Ctx)
+
+// ipv6InboundRule: what ipv6.HandlePacket hands to ICMPv6 and to the transport
+// dispatcher: the packet after TrimFront(40) and an UNCONDITIONAL
+// CapLength(payload length) - link-layer trailer bytes never reach a socket.
+func ipv6InboundRule(c *Ctx, rule string) {
+	fn := c.Fn(rule, "(*ipv6.endpoint).HandlePacket")
+	if fn == nil {
+		return
+	}
+	h := "buffer.VectorisedView.First($2)"
+	valid := "header.IPv6.IsValid(" + h + ", buffer.VectorisedView.Size($2))"
+	c.CheckSites(rule, fn, []SiteSpec{
+		{Kind: "call", Target: "(*buffer.VectorisedView).TrimFront", Args: []string{"&new(buffer.VectorisedView)", "40"}, Guards: []string{valid}, Exact: true, N: 1, Why: "the fixed header is removed from every valid packet"},
+		{Kind: "call", Target: "(*buffer.VectorisedView).CapLength", Args: []string{"&new(buffer.VectorisedView)", "header.IPv6.PayloadLength(" + h + ")"}, Guards: []string{valid}, Exact: true, N: 1, Why: "cut at the payload length, for EVERY valid packet (no size test decides it)"},
+		{Kind: "call", Target: "(*ipv6.endpoint).handleICMP", Args: []string{"$0", "$1", "new(buffer.VectorisedView)@3"}, Guards: []string{"(58 == header.IPv6.TransportProtocol(" + h + "))", valid}, Exact: true, N: 1, Why: "ICMPv6 gets the trimmed and capped payload"},
+		{Kind: "call", Target: "iface:stack.TransportDispatcher.DeliverTransportPacket", Args: []string{"$0.dispatcher", "$1", "header.IPv6.TransportProtocol(" + h + ")", "new(buffer.VectorisedView)@3"}, Guards: []string{"!(58 == header.IPv6.TransportProtocol(" + h + "))", valid}, Exact: true, N: 1, Why: "the transport gets the trimmed and capped payload under the packet's own next-header value"},
+	})
+	c.Ordered(rule, fn, []string{"trim header", "cap to payload length", "hand up"}, []func(Site) bool{isCall("(*buffer.VectorisedView).TrimFront"), isCall("(*buffer.VectorisedView).CapLength"), isCall("iface:stack.TransportDispatcher.DeliverTransportPacket")})
+}
